@@ -65,7 +65,9 @@ where
   /// On insert, add the new item to the clock.
   fn on_admit(&self, key: &K, cost: u64) -> AdmissionDecision<K> {
     let mut state = self.state.lock();
-    if !state.items.contains_key(key) {
+    if let Some(entry) = state.items.get_mut(key) {
+      entry.cost = cost; // re-admission: the entry was replaced, record its new cost
+    } else {
       state.items.insert(
         key.clone(),
         ClockEntry {
